@@ -75,10 +75,21 @@ func (g *Gen) concHeavy(n int) {
 		case 4:
 			return Step{Op: "ToCSV", Recv: f}
 		default:
-			return Step{Op: "Apply", Recv: f, Instrs: []Instr{{Fn: FnRef{K: "fn1", Sym: "UpperS"}, Dst: toBS("U"), Src1: toBS("S")}}}
+			// each adds a column of its own to the same frame (itself the result of adding a column)
+			dst := "U" + itoa(g.rng.Intn(8))
+			switch g.rng.Intn(4) {
+			case 0:
+				return Step{Op: "Copy", Recv: f, Dst: toBS(dst), Src: toBS("A")}
+			case 1:
+				return Step{Op: "WithRowNums", Recv: f, Dst: toBS(dst)}
+			case 2:
+				e := Expr{K: "call", Op: "neg", Args: []Expr{{K: "col", Name: toBS("A")}}}
+				return Step{Op: "Eval", Recv: f, Dst: toBS(dst), Expr: &e, Ctx: userCtx}
+			}
+			return Step{Op: "Apply", Recv: f, Instrs: []Instr{{Fn: FnRef{K: "fn1", Sym: "UpperS"}, Dst: toBS(dst), Src1: toBS("S")}}}
 		}
 	}
-	for batch := 0; batch < 5; batch++ {
+	for batch := 0; batch < 6; batch++ {
 		subs := []Step{}
 		focus := batch // most goroutines of a batch do the same kind of thing; every kind gets its batch
 		for j := 0; j < 8; j++ {
